@@ -34,7 +34,7 @@ BY_FILE = [
     (r"bellows/ezsp/__init__\.py", ["C01", "C13", "C06", "C07", "C08", "C09", "C10", "C12", "C14", "C15", "C16", "C17", "C19"]),
     (r"bellows/ezsp/v\d+/", ["C07", "C08", "C09", "C12", "C13", "C14", "C16", "C19"]),
     (r"bellows/ezsp/config\.py", ["C16", "C09"]),
-    (r"bellows/zigbee/", ["C01", "C12", "C13", "C14", "C15", "C16", "C17", "C19"]),
+    (r"bellows/zigbee/", ["C12", "C13", "C14", "C15", "C16", "C17", "C19"]),
     (r"bellows/types/", ["C03", "C07", "C08", "C13", "C14", "C18"]),
     (r"bellows/config/", ["C16", "C09"]),
     (r"bellows/exception\.py", ["C06", "C10", "C17"]),
